@@ -299,7 +299,10 @@ def gen_logical(rng):
     for i, nm in enumerate(names):
         k = rng.choice(["file", "file", "file", "rolling", "rolling", "console"])
         enc = rng.choice([None, ("pattern", "P%d|{l}|{t}|{m}{n}" % i), ("pattern", "P%d\U0001F600é|{l}|{t}|{m}{n}" % i),
-                          ("pattern", "%d {h({l})} {M} {m}{n}" % i), ("json",)])
+                          ("pattern", "%d {h({l})} {M} {m}{n}" % i), ("json",),
+                          # escaped backslashes followed by n / r / t, escaped braces: the text of the file is
+                          # the pattern, character for character
+                          ("pattern", "P%d C:\\\\new\\\\temp\\\\run \\{{t}\\}=[{t}] {m}{n}" % i)])
         a = {"name": nm, "kind": k, "filters": [rng.below(6) for _ in range(rng.choice([0, 0, 1, 1, 2]))], "enc": enc}
         if k == "console":
             a["target"] = rng.choice(["stdout", "stderr", "stderr"])
